@@ -45,4 +45,20 @@ mod verif_c16_wit {
         let off = geo::Point::new(c.x() + 0.001, c.y());
         assert!(rec.distance_2(&off) > rec.distance_2(&c));
     }
+
+    /// a coordinate inside the bounding box of a long edge is matched only if it is within the tolerance of the record's LOCATION (its centroid)
+    #[test]
+    fn c16_wit_inside_the_bounding_box_is_not_within_tolerance() {
+        // one long diagonal edge: its bounding box is about 86 km x 111 km
+        let rec = EdgeRtreeRecord::new(EdgeId(0), LineString::from(vec![coord! {x: -105.0f32, y: 39.0f32}, coord! {x: -104.0f32, y: 40.0f32}]));
+        let rtree = RTree::bulk_load(vec![EdgeRtreeRecord::new(EdgeId(0), rec.geometry.clone())]);
+        let tolerance = Some((Distance::new(10.0), DistanceUnit::Kilometers));
+        // in a corner of the box, about 70 km from the centroid (-104.5, 39.5)
+        let corner = coord! {x: -104.05f32, y: 39.05f32};
+        assert_eq!(within_tolerance(tolerance, &corner, &rec).unwrap(), false, "70 km from the record's location is not within 10 km");
+        assert_eq!(search(corner, &rtree, tolerance, &None, &None, &None, &None).unwrap(), None, "a coordinate beyond the tolerance yields no match");
+        // 3 km from the centroid: matched
+        let near = coord! {x: -104.52f32, y: 39.52f32};
+        assert_eq!(search(near, &rtree, tolerance, &None, &None, &None, &None).unwrap(), Some(EdgeId(0)));
+    }
 }
